@@ -27,9 +27,17 @@ func init() {
 
 // ---- in-memory connections ----
 
-type readConn struct{ r *bytes.Reader }
+type readConn struct {
+	r     *bytes.Reader
+	chunk int // > 0: at most that many bytes per Read (a socket hands data out in pieces)
+}
 
-func (c *readConn) Read(p []byte) (int, error)       { return c.r.Read(p) }
+func (c *readConn) Read(p []byte) (int, error) {
+	if c.chunk > 0 && len(p) > c.chunk {
+		p = p[:c.chunk]
+	}
+	return c.r.Read(p)
+}
 func (c *readConn) Write(p []byte) (int, error)      { return len(p), nil }
 func (c *readConn) Close() error                     { return nil }
 func (c *readConn) LocalAddr() net.Addr              { return &net.TCPAddr{} }
@@ -75,6 +83,10 @@ func mtcpFrame(b *bpv7.Bundle) []byte {
 
 // mtcpServe feeds the stream to the real server handler and returns the bundles it reported.
 func mtcpServe(stream []byte) (got [][]byte, panicked interface{}) {
+	return mtcpServeChunked(stream, 0)
+}
+
+func mtcpServeChunked(stream []byte, chunk int) (got [][]byte, panicked interface{}) {
 	serv := mtcp.NewMTCPServer("verif:0", gen.MustEID("dtn://me/"), false)
 	done := make(chan struct{})
 	exited := make(chan struct{})
@@ -98,7 +110,7 @@ func mtcpServe(stream []byte) (got [][]byte, panicked interface{}) {
 	}()
 	func() {
 		defer func() { panicked = recover() }()
-		serv.VerifHandleSender(&readConn{r: bytes.NewReader(stream)})
+		serv.VerifHandleSender(&readConn{r: bytes.NewReader(stream), chunk: chunk})
 	}()
 	close(done)
 	<-exited // the collector has recorded everything it received
@@ -196,6 +208,21 @@ func c12MTCP(r *ev.Run, thorough bool, st *c12Stats) {
 			}
 		}
 		judge(len(stream), stream)
+		// the same stream arriving 1 and 7 octets per Read
+		for _, chunk := range []int{1, 7} {
+			if len(stream) > 3000 && chunk == 1 && si%7 != 0 {
+				continue
+			}
+			got, p := mtcpServeChunked(stream, chunk)
+			ok := p == nil && len(got) == len(sq.idx)
+			for i := 0; ok && i < len(got); i++ {
+				ok = bytes.Equal(got[i], encs[sq.idx[i]])
+			}
+			if !ok {
+				r.Violation("C12/mtcp-server-misreads-chunked-stream", "mtcp", fmt.Sprintf("stream of bundles %v (keep-alives %v) delivered %d octet(s) per Read: server reported %d bundles (panic %v)", sq.idx, sq.ka, chunk, len(got), p), map[string]interface{}{"bundles": sq.idx, "keepalives": sq.ka, "octets_per_read": chunk})
+				break
+			}
+		}
 		// cuts at every byte offset: for the streams without the big bundle (those are cut on a stride)
 		stride := 1
 		if len(stream) > 2000 {
